@@ -6,7 +6,7 @@ import Uquic.Proofs.FieldsWriter2
 namespace Uquic.Proofs.Fields
 open Uquic.Model.H3.Fields Uquic.Model.H3.Writer Uquic.Gen.H3Fields
 open Uquic.Spec.H3Fields (isPseudoName lowerTchar fieldValueByte isDigitByte connectionSpecific allowedPseudo
-  fieldSize sectionSize WellFormedG WellFormed)
+  fieldSize sectionSize WellFormed)
 
 /-- the path encodeHeaders puts into :path -/
 def emittedPath (w : WReq) (host : List Nat) : List Nat :=
@@ -89,7 +89,7 @@ theorem decodedHeaders_parts (P R : List Field) (hP : ∀ f ∈ P, isPseudoName 
 
 /-- what the parser returns for a section in which every Content-Length field carries `clv` -/
 theorem parse_cl_result (ext : List Nat → Bool) (isReq : Bool) (lim : Int) (fs : List Field) (h : Hdr)
-    (hp : parseHeaders ext isReq lim fs = .ok h) (clv : List Nat) (hclv : clv ≠ [])
+    (hp : parseHeaders ext isReq lim fs = .ok h) (clv : List Nat)
     (hall : ∀ f ∈ fs, f.1 = nContentLength → f.2 = clv) :
     ((∃ f ∈ fs, f.1 = nContentLength) → h.contentLength = (decVal clv : Int) ∧ h.headers = hdrSet (decodedHeaders fs) kContentLength clv) ∧
     ((∀ f ∈ fs, f.1 ≠ nContentLength) → h.contentLength = -1 ∧ h.headers = decodedHeaders fs) := by
@@ -103,7 +103,7 @@ theorem parse_cl_result (ext : List Nat → Bool) (isReq : Bool) (lim : Int) (fs
     have hs : s.clStr = clv := by rw [← inv.clSome hr f hfm hfn]; exact hall f hfm hfn
     unfold finish at hf
     rw [hs] at hf
-    simp only [ne_eq, hclv, not_false_eq_true, if_true] at hf
+    simp only [hr, if_true] at hf
     split at hf
     · cases hf
     · rename_i v hv
@@ -117,9 +117,8 @@ theorem parse_cl_result (ext : List Nat → Bool) (isReq : Bool) (lim : Int) (fs
       cases hr : s.readCL with
       | false => rfl
       | true => obtain ⟨g, hg, hg1, _⟩ := inv.clWitness hr; exact absurd hg1 (hno g hg)
-    have hs := (inv.clNone hr).2
     unfold finish at hf
-    simp only [hs, ne_eq, not_true_eq_false, if_false] at hf
+    simp only [hr, Bool.false_eq_true, if_false] at hf
     cases hf
     exact ⟨rfl, inv.headers⟩
 
